@@ -28,3 +28,17 @@ Fixpoint run_calls (N : Num) (s : state (T N)) (ncx : ncxt) (y : yval N) (i : Z)
 Definition run_bcase (tbl : list oracle_entry)
            (s : state float) (ncx : ncxt) (y : yval (FNum tbl)) (cs : list (bcall (FNum tbl))) : Z :=
   run_calls (FNum tbl) s ncx y 0%Z cs.
+
+(* sequences of report calls on several objects of the same session (y, y.real, y.imag,
+   magnitude(y), y again): every call names its target.  The model is pure -- the targets are
+   the snapshots taken before the first call -- so a report that changed what a later report
+   returns shows up as a difference. *)
+Definition tcall (N : Num) := (yval N * bool * opts N * res (list (row N)))%type.
+
+Fixpoint run_tcalls (N : Num) (s : state (T N)) (ncx : ncxt) (i : Z) (cs : list (tcall N)) : Z :=
+  match cs with
+  | [] => (-1)%Z
+  | (y, b, o, e) :: cs' =>
+      let r := run_call N s ncx y (b, o, e) in
+      if (r =? -1)%Z then run_tcalls N s ncx (i + 1)%Z cs' else (10000 * i + 10 + r)%Z
+  end.
